@@ -19,9 +19,13 @@ fn gen_ids(rng: &mut Rng, len: usize) -> Vec<u32> {
         2 => 200,
         _ => 10_000_000,
     };
+    // one time in eight: ids that straddle a byte-width border (2^8, 2^16, 2^24, 2^31)
+    let straddle: Option<u32> = if rng.chance(1, 8) { Some(*rng.pick(&[216u32, 65_496, 16_777_176, 2_147_483_608])) } else { None };
     (0..len)
         .map(|_| {
-            if rng.chance(1, 40) {
+            if let Some(base) = straddle {
+                base + rng.below(80) as u32
+            } else if rng.chance(1, 40) {
                 *rng.pick(&[0u32, 1, 118, 9_999_999, u32::MAX])
             } else {
                 rng.below(universe) as u32
@@ -31,6 +35,9 @@ fn gen_ids(rng: &mut Rng, len: usize) -> Vec<u32> {
 }
 
 fn gen_len(rng: &mut Rng) -> usize {
+    if rng.chance(1, 40) {
+        return rng.range(250, 300) as usize; // beyond 255 members
+    }
     match rng.below(6) {
         0 => rng.below(3) as usize,
         1 | 2 => rng.range(3, 12) as usize,
@@ -83,6 +90,28 @@ pub fn case(kind: u32, xs: &[u32], ys: &[u32]) -> Case {
             let u2 = &bb | &a;
             let i = &a & &bb;
             let i2 = &bb & &a;
+            // the owned and mixed operator variants and the iterator of &HpoGroup are the same operations
+            assert_eq!(ids(&(a.clone() | bb.clone())), ids(&u), "owned | owned");
+            assert_eq!(ids(&(a.clone() | &bb)), ids(&u), "owned | &borrowed");
+            assert_eq!(ids(&(a.clone() & bb.clone())), ids(&i), "owned & owned");
+            assert_eq!(ids(&(a.clone() & &bb)), ids(&i), "owned & &borrowed");
+            // (with an id that is new, with members, and with the largest member)
+            let mut operands = vec![p1, p2];
+            if let Some(last) = a.iter().last() {
+                operands.push(last);
+            }
+            if let Some(first) = a.iter().next() {
+                operands.push(first);
+            }
+            for p in operands {
+                assert_eq!(ids(&(a.clone() + p)), ids(&(&a + p)), "owned + id");
+                assert_eq!(ids(&(&a | p)), ids(&(&a + p)), "& | id");
+            }
+            {
+                use hpo::annotations::AnnotationId;
+                let via_into: Vec<u32> = (&u).into_iter().map(|x| x.as_u32()).collect();
+                assert_eq!(via_into, ids(&u), "IntoIterator for &HpoGroup");
+            }
             if !i.is_empty() && u.len() > a.len() && u.len() > bb.len() {
                 tags.push("nt");
             }
